@@ -62,7 +62,7 @@ Lemma event_row_value v4p e : event_repr e ->
   let v := event_string e (event_format v4p) in v <> [] /\ trim_space v = v /\ brkfree v.
 Proof.
   intros (Hok & Hbe & Hbn & Hbs & Htt & Hbt) v. unfold v, event_string, event_format, comma. cbn [map].
-  pose proof Hok as (Hs & He & _).
+  pose proof Hok as (Hs & He & _ & _ & _ & _ & _ & Hnm & _).
   assert (Hfirst : event_cell_string (if v4p then ELayer else EMarked) e <> [] /\ cell_clean (event_cell_string (if v4p then ELayer else EMarked) e)).
   { destruct v4p; cbn [event_cell_string]; [split; [apply itoa_z_nonnil | apply itoa_z_clean]|].
     destruct (av_marked e) as [ [|]|]; split; try discriminate; reflexivity. }
@@ -71,7 +71,7 @@ Proof.
   - apply trim_join; [exact Hfn | apply cell_clean_trim; exact Hfc | cbn [last event_cell_string]; exact Htt].
   - unfold brkfree. apply forallb_forall. intros b Hb. apply in_join in Hb. destruct Hb as [[<-|[]]|(w & Hw & Hb)]; [reflexivity|].
     assert (Hw' : brkfree w).
-    { cbn [In] in Hw. repeat (destruct Hw as [<-|Hw]); try contradiction; cbn [event_cell_string];
+    { cbn [In] in Hw. repeat (destruct Hw as [<-|Hw]); try contradiction; cbn [event_cell_string]; try rewrite (name_cell_id _ Hnm);
         try (apply cell_clean_nobrk, itoa_z_clean); try (apply cell_clean_nobrk, format_ssa_clean; lia); try assumption.
       apply cell_clean_nobrk. exact Hfc. }
     unfold brkfree in Hw'. rewrite forallb_forall in Hw'. apply Hw'. exact Hb.
